@@ -13,7 +13,7 @@ for d in seeded/*/; do
   res=$(scripts/eval_mutant.sh $d/patch.diff 2>&1)
   echo "$res" > $d/detection.txt
   rules=$(echo "$res" | grep -v KNOWN-FINDING | grep -o 'rule=[A-Za-z0-9]* kind=[a-z]*' | sort | uniq -c | awk '{print $2" "$3}' | sed 's/rule=//; s/ kind=violation//; s/ kind=undecided/(undecided)/' | tr '\n' ' ')
-  props=$(echo "$res" | grep -o '^C[0-9]* exit=1' | cut -d' ' -f1 | tr '\n' ' ')
+  props=$(echo "$res" | grep -o '^C[0-9]* exit=[12]' | cut -d' ' -f1 | tr '\n' ' ')
   prop=$(python3 -c "import json;print(json.load(open('$d/meta.json'))['property'])")
   if [ -z "$rules" ]; then rules="**not detected**"; fi
   echo "| $id | $prop | $props: $rules |" >> $out.tmp
